@@ -19,6 +19,12 @@ def run(rep, tier, seed, replay):
                       "implementation could not satisfy although a spending witness exists from the same assets: %s" % b.get("desc"),
                       dict(b, property="C02", engine="sat", seed=seed, n=n,
                            failed_clause="all_sat(ms, assets) contains a witness accepted by verify_spend, implementation returned CouldNotSatisfy"), True)
+    for b in r["bad"].get("C17", []):
+        # the planner built from plan::Assets says "no plan" while the same capabilities admit one
+        if b.get("what") == "assets-plan-differs-from-capabilities" and b.get("lib") == "none":
+            rep.violation("c02:assets-plan-missing", "into_plan* reports no plan for Assets that can spend: %s" % b.get("desc", "")[:200],
+                          dict(b, property="C02", engine="sat", seed=seed, n=n,
+                               failed_clause="plan from plan::Assets is None, plan from the same capabilities exists"), True)
     for d in r["diff"]:
         rep.violation("tie:satisfier-model", "model of the satisfier and implementation disagree: %s" % d.get("line", "")[:300],
                       dict(d, property="C02", broken_tie="correspondence Sat.v (satisfy) vs Descriptor::get_satisfaction*", seed=seed, n=n), False)
